@@ -293,14 +293,14 @@ Proof.
   - constructor; simpl; auto. rewrite app_length. lia.
 Qed.
 
-Lemma set_cell_tag_Inv : forall a t w, Inv w -> Inv (set_cell_tag a t w) /\ ext w (set_cell_tag a t w).
+Lemma set_cell_tag_Inv : forall a (t : pay -> pay) w, Inv w -> Inv (set_cell_tag a t w) /\ ext w (set_cell_tag a t w).
 Proof.
   intros a t w [[W1 [W2 W3]] [HL HN]].
   assert (Hlat : forall b, lat_of (set_cell_tag a t w) b = lat_of w b).
   { intros. unfold lat_of, set_cell_tag. simpl. destruct (Nat.eq_dec a b).
     - subst. destruct (nth_error (heap w) b) eqn:E.
       + erewrite nth_error_upd_nth_eq; eauto. reflexivity.
-      + assert (nth_error (upd_nth b (fun c => mkCell t (c_lat c)) (heap w)) b = None).
+      + assert (nth_error (upd_nth b (fun c => mkCell (t (c_tag c)) (c_lat c)) (heap w)) b = None).
         { apply nth_error_None. rewrite upd_nth_length. apply nth_error_None. auto. } rewrite H. auto.
     - rewrite nth_error_upd_nth_neq; auto. }
   split.
@@ -315,11 +315,11 @@ Proof.
   - constructor; simpl; auto. rewrite upd_nth_length. auto.
 Qed.
 
-Lemma set_tags_Inv : forall prs w, Inv w -> Inv (set_tags prs w) /\ ext w (set_tags prs w).
+Lemma set_tags_Inv : forall c prs w, Inv w -> Inv (set_tags c prs w) /\ ext w (set_tags c prs w).
 Proof.
   induction prs as [|[a t] r]; simpl; intros.
   - split; auto. apply ext_refl.
-  - destruct (set_cell_tag_Inv a t w H) as [H1 H2]. destruct (IHr _ H1) as [H3 H4].
+  - destruct (set_cell_tag_Inv a (set_col c t) w H) as [H1 H2]. destruct (IHr _ H1) as [H3 H4].
     split; auto. eapply ext_trans; eauto.
 Qed.
 
